@@ -182,6 +182,34 @@ theorem policy_caps_are_configured (mode : String) (raw dflt : KTab Nat) (p : Po
   · cases h
     cases k <;> rfl
 
+/-- **One ledger per request tree, also for work that outlives the request.**
+Through the server's request context (the pin: pending → ledger → finished, or
+pending → closed) every history of debits and of the outer Chain's completion,
+in any order, accepts at most `cap` units of each aggregate kind in enforce
+mode: the ledger materialised by the first real work stays the tree's ledger
+after `finish` (stale helpers keep charging it), and a request that completed
+without one refuses everything afterwards — no history ever gets a second
+budget. -/
+theorem one_budget_per_tree (p : Policy) (hm : p.mode = .enforce) (k : Kind) (hk : k.isAggregate = true)
+    (ops : List PinOp) :
+    pinAccepted k ops (pinRun p .pending ops).2 ≤ p.caps.get k := by
+  have := pin_budget p hm k hk ops .pending (by simp [pinCtr])
+  simpa [pinCtr] using this
+
+/-- a request that completed without recursive work is closed for good: every later debit is cancelled. -/
+theorem closed_is_final (p : Policy) (ops : List PinOp) :
+    (pinRun p .closed ops).1 = .closed ∧
+    ∀ r ∈ (pinRun p .closed ops).2, r = .canceled ∨ r = .ok := by
+  induction ops with
+  | nil => simp [pinRun]
+  | cons op t ih =>
+    cases op <;> simp only [pinRun, pinStep] <;> refine ⟨ih.1, ?_⟩ <;> intro r hr <;>
+      simp only [List.mem_cons] at hr <;> rcases hr with rfl | hr
+    · exact Or.inl rfl
+    · exact ih.2 r hr
+    · exact Or.inr rfl
+    · exact ih.2 r hr
+
 /-! ### the attempt guard -/
 
 /-- **At most `n` attempts per (question, endpoint, transport) tuple** for every
@@ -325,6 +353,27 @@ theorem ops_le_candidate_cap (c : SigCaps) (hit : Option Nat) (k used spent : Na
   simp only at h
   exact ⟨by omega, h.2.2.1⟩
 
+/-- **One parent DS record never costs more digests than `MaxDNSKEYCandidates`**
+(nor more than it has usable candidates) in enforce mode — plain and anchored
+walk, whatever the number of same-tag KSKs, wherever (or whether) the genuine
+key sits in the validator's order: the matching key spends a candidate slot
+like every other. -/
+theorem ds_ops_le_candidate_cap (anch : Bool) (candCap budget : Nat) (hit : Option Nat)
+    (k spent : Nat) (m : Bool) :
+    (dsCands true anch candCap budget hit k 0 spent m).1 - spent ≤ candCap ∧
+    (dsCands true anch candCap budget hit k 0 spent m).1 - spent ≤ k := by
+  have h := dsCands_spec anch candCap budget hit k 0 spent m
+  simp only at h
+  exact ⟨by omega, h.2.2.1⟩
+
+/-- **… and a whole DS set never costs more than the tree's `MaxDSDigests`**, for
+every number of DS records, every candidate count and every position of the
+genuine DS and key, plain or anchored. -/
+theorem ds_ops_le_budget (anch : Bool) (candCap budget : Nat) (recs : List (Nat × Option Nat))
+    (spent : Nat) (any : Bool) (hb : spent ≤ budget) :
+    (dsWalk true anch candCap budget recs spent any).1 ≤ budget :=
+  (dsWalk_spec anch candCap budget recs spent any).2 hb
+
 /-! ### budget failures are request-local; shape of the over-budget reply -/
 
 /-- **Budget failures are never cacheable for other clients.** A failure is
@@ -381,6 +430,25 @@ theorem overbudget_reply_shape (p : Policy) (sh : Shared) (k : Kind) (lim : Nat)
   unfold servfailReply
   rw [h]
   cases opt <;> simp [edeCode]
+
+/-- **Failover never works for an over-budget tree.** When the request tree
+latched an enforcement error — outbound, internal-query or any DNSSEC budget —
+the failover writer answers the policy SERVFAIL (EDE iff OPT, code by kind) and
+does not query the fallback; and when the fallback attempt's own outbound debit
+is refused the outcome is the same.  The fallback is queried only if the ledger
+admits one more transport attempt. -/
+theorem failover_respects_budget (p : Policy) (sh : Shared) (opt : Bool) :
+    ((failoverReply p sh opt).2 = true →
+        enforcementError p sh = .ok ∧ (apiStep p sh (.debit .outbound true)).2 = .ok) ∧
+    ((failoverReply p sh opt).2 = false →
+        (failoverReply p sh opt).1.rcode = 2 ∧ ((failoverReply p sh opt).1.ede.isSome = true ↔ opt = true)) := by
+  unfold failoverReply
+  cases h1 : enforcementError p sh with
+  | limit k l => cases opt <;> simp
+  | ok =>
+    cases h2 : (apiStep p sh (.debit .outbound true)).2 with
+    | limit k l => cases opt <;> simp
+    | ok => simp
 
 /-- the EDE codes of the code are the ones the model replies with. -/
 theorem ede_codes_fact : SdnsVerif.Gen.C12.ede_code_network = 0 ∧ SdnsVerif.Gen.C12.ede_code_dnssec = 5 := by
@@ -484,6 +552,19 @@ example : chasedFailureCacheable pol2 {} [.debit .internal true] false false fal
 -- an aggregate below the per-object default stays as configured
 example : (policyFromConfig "enforce" (KTab.ofList 0 [0, 0, 0, 0, 3, 2, 0, 0]) (KTab.ofList 0 [128, 32, 4, 8, 32, 32, 32, 32])).map
     (fun p => p.caps.toList) = some [128, 32, 4, 8, 3, 2, 32, 32] := by decide
+
+-- seven KSKs share the DS's tag, the genuine one is second, cap 4: the anchored walk stops at four digests
+example : dsCands true true 4 64 (some 1) 7 0 0 false = (4, true, some .dnskeyCand) := by decide
+example : dsCands true false 4 64 (some 1) 7 0 0 false = (2, true, none) := by decide
+example : dsWalk false true 4 64 [(7, none), (7, some 1)] 0 false = (14, true, none) := by decide
+-- signature budget gone, outbound budget intact: the failover writer does not go to the fallback
+example : failoverReply pol2 { first := Kind.signature.idx + 1 } true = ({ rcode := 2, ede := some 5 }, false) := by decide
+example : failoverReply pol2 {} true = ({ rcode := 0, ede := none }, true) := by decide
+
+-- two units before the request completes, three after it through the stale context: one budget of three
+example : (pinRun pol2 .pending [.debit .outbound true, .debit .outbound true, .finish,
+    .debit .outbound true]).2 = [.ok, .ok, .ok, .limit .outbound 2] := by decide
+example : (pinRun pol2 .pending [.finish, .debit .outbound true]).2 = [.ok, .canceled] := by decide
 
 -- a chase that took three hops, then the deadline passed: the next two hop attempts start nothing
 example : (chaseRun {} [.hop, .hop, .hop, .deadline, .hop, .hop]).started = 3 := by decide
